@@ -1466,6 +1466,13 @@ class Circuit(Unitary, StateVectorMap, Collection[Operation]):
             self.append_circuit(circuit, location)
             return
 
+        # Fix the target cycle now: a negative index would refer to a
+        # different cycle after every insertion.
+        if cycle_index < -self.num_cycles:
+            cycle_index = 0
+        elif cycle_index < 0:
+            cycle_index = self.num_cycles + cycle_index
+
         for op in reversed(circuit):
             mapped_location = [location[q] for q in op.location]
             self.insert(
